@@ -10,7 +10,7 @@ On break: harness `oracle` evaluates the property's clauses directly on the real
 import os
 
 THEOREMS = ["IstioModel.C02.Theorems", "IstioModel.C02.QueueTheorems", "IstioModel.C02.QueueRefinement",
-            "IstioModel.C02.DebounceTheorems", "IstioModel.C02.SenderTheorems", "IstioModel.C02.PipeTheorems"]
+            "IstioModel.C02.DebounceTheorems", "IstioModel.C02.SenderTheorems", "IstioModel.C02.PipeTheorems", "IstioModel.C02.PipeSnapshot"]
 STREAMS = ("merge", "queue", "debounce", "sender", "server")
 
 
@@ -323,9 +323,42 @@ def robust(ctx, fn, *a, **kw):
         except FileNotFoundError as e:
             ctx.log("harness binary vanished (%s); rebuilding and repeating the step" % e)
             ctx.count("harness.rebuilt")
-            if not ctx.go_build():
+            if not build_with_retry(ctx):
                 return None
     return fn(*a, **kw)
+
+
+def build_with_retry(ctx, tries=4):
+    """The Go build cache is shared by all checks and gets trimmed while they run; the linker then fails with
+    `cannot open file ~/.cache/go-build/...`.  That is a machinery hiccup, not a hook that stopped compiling:
+    build again (the compiler refills the cache) before calling the tie broken."""
+    import json as _json
+    import time as _time
+    for k in range(tries):
+        before = len(ctx.violations)
+        if ctx.go_build():
+            return True
+        new = ctx.violations[before:]
+        transient = False
+        for v in new:
+            try:
+                d = _json.load(open(v["path"]))["replay"].get("detail", "")
+            except Exception:
+                d = ""
+            if ".cache/go-build" in d or "no space left" in d or "could not import" in d:
+                transient = True
+        if not transient or k + 1 == tries:
+            return False
+        for v in new:
+            try:
+                os.remove(v["path"])
+            except OSError:
+                pass
+        del ctx.violations[before:]
+        ctx.count("harness.build-retried")
+        ctx.log("go build failed on a trimmed build cache; building again")
+        _time.sleep(2 + 3 * k)
+    return False
 
 
 def run(ctx):
@@ -339,7 +372,9 @@ def run(ctx):
                 "sender: real doSendPushes, semaphore capacity 1-3, 1-4 connections (odd ids delta), enq/deliver/pushdone/close/stop/shut in any "
                 "order, rarely a nil request; "
                 "server: a real DiscoveryServer, 1-6 real stream loops (SotW and delta), bursts of ConfigUpdate, a connection parked between "
-                "addCon and MarkInitialized, Send failing, Send blocking, clients leaving (idle, blocked, parked mid-initialisation); "
+                "addCon and MarkInitialized, Send failing, Send blocking, clients leaving (idle, blocked, parked mid-initialisation); updates "
+                "mostly name keys of their own, a third repeat the previous keys (also alone in a sync window); expected and seen are "
+                "counted per sync window (the model takes a ghost `mark` at every sync); snapshot versions per connection observed; "
                 "stress: 8 producers x 4 workers on one real queue; "
                 "distinct = hash of (ops, implementation outputs); non-trivial = at least one op")
     ctx.assumptions = [
@@ -362,7 +397,7 @@ def run(ctx):
     proved = ctx.lean_prove(THEOREMS)
     if not ctx.build_drv():
         return
-    if not ctx.go_build():
+    if not build_with_retry(ctx):
         return
     ctx.trusted.append("pilot/pkg/xds/zz_verif_c02.go (verif-tagged read-only snapshot of PushQueue tables / semaphore / push channel; entry "
                        "points to debounce / doSendPushes)")
@@ -419,9 +454,13 @@ MANIFEST = {
                    "queue operation never write to an existing object; queue invariants, refinement to a per-connection mailbox, no_loss, "
                    "isolation, one push in flight, FIFO, redelivery after MarkDone; debounce_no_loss, single flight, sequential pushes, "
                    "wake-up, committed count, no deadlock; semaphore balance, MarkDone exactly once, no orphaned processing entry, every "
-                   "flight has a releasing exit, no crash without a nil request; pipeline_no_loss: every fact of every accepted "
-                   "notification is, for every connection registered from the start, in the channel / pending / being pushed / waiting in "
-                   "the queue / parked / received by its stream loop / given up only for a closed stream or a stopping server. "
+                   "flight has a releasing exit, no crash without a nil request; pipeline_no_loss (occurrence form: histories are logs "
+                   "since a ghost `mark` that may be placed anywhere, so a repeated notification has to arrive again): every fact of every "
+                   "notification accepted since the mark is, for every connection registered from the start, in the channel / pending / "
+                   "being pushed / waiting in the queue / parked / received by its stream loop since the mark / given up only for a closed "
+                   "stream or a stopping server; pipeline_newest_snapshot: the request waiting for a connection (else its parked event) "
+                   "carries the newest push context. NOT covered by the composed theorems: a connection that registers later (`register`, "
+                   "i.e. every reconnect and every new proxy) - that case is covered by the real-server stream only. "
                    "Tied to /repo on every run by differential runs against the real functions, incl. a real DiscoveryServer with real "
                    "stream loops (done() after a failing Send, AllClients incl. connections mid-initialisation, delta and SotW)."),
     "level_note": ("Trusted: Lean kernel + {propext, Classical.choice, Quot.sound}; the hand-written models (tied by differential testing: "
